@@ -222,7 +222,79 @@ def run_case(case: dict[str, Any]) -> dict[str, Any]:
     return {"status": status, "val": val, "ops": ops, "box": box, "dur": dur}
 
 
+@st.composite
+def eof_case_s(draw) -> dict[str, Any]:
+    """The gateway acknowledges a request, forwards 1-3 data frames (other frames in between) and then closes the connection; the
+    client reads only after all of that has arrived."""
+    src, dst = draw(st.sampled_from([(0xF4, 0x10), (0x10, 0xF4), (0x01, 0xFF)]))
+    n = draw(st.integers(1, 3))
+    frames: list[dict[str, Any]] = [{"t": "ack"}]
+    for i in range(n):
+        if draw(st.integers(0, 2)) == 0:
+            frames.append(draw(st.sampled_from([{"t": "alive", "p": b""}, {"t": "data-other", "a": 1, "b": 2, "pair": "rand", "p": b"\x01"}])))
+        frames.append({"t": "data", "p": bytes([0x62, i]) + draw(st.binary(max_size=5))})
+    return {"kind": "eof", "src": src, "dst": dst, "frames": frames, "pause": draw(st.sampled_from([0.0501, 0.5001, 1.1001])), "ack_timeout": 1.0,
+            "splits": draw(st.lists(st.integers(0, 120), max_size=4)), "request": bytes([0x22]) + draw(st.binary(min_size=2, max_size=4))}
+
+
+def check_eof(case: dict[str, Any]) -> list[tuple[str, str]]:
+    from gallia.transports import TargetURI
+    from gallia.transports.hsfz import HSFZConfig, HSFZConnection, HSFZTransport
+
+    src, dst = case["src"], case["dst"]
+    got: list[tuple[str, Any]] = []
+
+    async def go() -> None:
+        loop = asyncio.get_event_loop()
+        reader = asyncio.StreamReader()
+        wire = Wire(reader, case["splits"])
+
+        def on_write(b: bytes) -> None:
+            if len(b) >= 6 and struct.unpack("!H", b[4:6])[0] == 1:
+                for i, fr in enumerate(case["frames"]):
+                    wire.emit(1 + i, enc(fr, src, dst, b[8:]), {"frame": fr, "req": b[8:], "reaction_to": 0})
+                loop.call_later((len(case["frames"]) + 3) * 0.01, reader.feed_eof)
+
+        writer = MemWriter(on_write)
+        conn = HSFZConnection(reader, writer, src, dst, case["ack_timeout"])  # type: ignore[arg-type]
+        tr = HSFZTransport(TargetURI(f"hsfz://192.0.2.1:6801?src_addr={src}&dst_addr={dst}"), 6801,
+                           HSFZConfig(src_addr=str(src), dst_addr=str(dst), ack_timeout=int(case["ack_timeout"] * 1000)), conn)
+        await tr.write(case["request"], timeout=None)
+        await asyncio.sleep(case["pause"])
+        for _ in range(len(case["frames"]) + 1):
+            try:
+                got.append(("ok", await tr.read(timeout=2.3701)))
+            except TimeoutError:
+                got.append(("timeout", None))
+                break
+            except ConnectionError as e:
+                got.append(("connerr", repr(e)))
+                break
+            except Exception as e:  # noqa: BLE001
+                got.append((f"exc:{type(e).__name__}", repr(e)))
+                break
+        wire.closed = True
+        try:
+            await conn.close()
+        except Exception:  # noqa: BLE001
+            pass
+
+    status, val, _ = run_virtual(go, max_virtual=1e4)
+    if status != "ok":
+        return [(f"C07/eof/run-{status}", f"{val!r}; reads so far {got}")]
+    want = [("ok", fr["p"]) for fr in case["frames"] if fr["t"] == "data"]
+    have = [(k, v) for k, v in got if k == "ok"]
+    if have != want:
+        return [("C07/read/received-messages-lost-at-end-of-stream", f"gateway sent {[w[1].hex() for w in want]} and closed; after a pause of {case['pause']} s the reads gave "
+                 f"{[(k, v.hex() if isinstance(v, bytes) else v) for k, v in got]}")]
+    if not got or got[-1][0] != "connerr":
+        return [("C07/read/end-of-stream-not-reported", f"reads gave {[(k, v.hex() if isinstance(v, bytes) else v) for k, v in got]}")]
+    return []
+
+
 def check(case: dict[str, Any]) -> list[tuple[str, str]]:
+    if case.get("kind") == "eof":
+        return check_eof(case)
     r = run_case(case)
     if r["status"] != "ok":
         return [(f"C07/run-{r['status']}", f"program did not finish: {r['status']} {r['val']!r}; ops so far {[(o.kind, o.outcome) for o in r['ops']]}")]
@@ -338,7 +410,7 @@ def nontrivial(case: dict[str, Any]) -> bool:
 
 
 def shards(tier: str) -> list[dict[str, Any]]:
-    return [{"n": 250 if tier == "quick" else 25000} for _ in range(16)]
+    return [{"n": 250 if tier == "quick" else 25000} for _ in range(15)] + [{"n": 150 if tier == "quick" else 5000, "eof": True}]
 
 
 def run_shard(spec: dict[str, Any], seed: int) -> Collector:
@@ -346,13 +418,18 @@ def run_shard(spec: dict[str, Any], seed: int) -> Collector:
 
     def body(case: dict[str, Any]) -> None:
         res = check(case)
+        if case.get("kind") == "eof":
+            col.case(str(case), True, cls="end-of-stream-after-data", sample=case)
+            for b, m in res:
+                col.violation(b, case, m)
+            return
         kinds = sorted({f["t"] for rx in case["reactions"] for _, f in rx} | {f["t"] for _, f in case["unsolicited"]})
         col.case(str(case), nontrivial(case), cls="+".join(k for k in kinds if k in ("alive", "ctrl", "short", "data-other")) or "plain",
                  sample={**case, "program": [[o[0], _h(o[1]) if o[0] == "write" else o[1]] for o in case["program"]]})
         for b, m in res:
             col.violation(b, case, m)
 
-    run_given(case_s(), body, spec["n"], seed)
+    run_given(eof_case_s() if spec.get("eof") else case_s(), body, spec["n"], seed)
     return col
 
 
